@@ -153,21 +153,21 @@ func genExt4History(r *core.Rng, tier string, idx int, wide bool) *core.Trace {
 // ---------------------------------------------------------------- executor
 
 type ext4Run struct {
-	t     *core.Trace
-	res   *core.Result
-	prop  string
-	d     *simdisk.Disk
-	fs    *ext4.FileSystem
-	m     *treeModel
-	attr  map[string]*ext4Attr
-	size  int64
-	start int64
-	opIdx int
-	trig  string
-	locus string
+	t       *core.Trace
+	res     *core.Result
+	prop    string
+	d       *simdisk.Disk
+	fs      *ext4.FileSystem
+	m       *treeModel
+	attr    map[string]*ext4Attr
+	size    int64
+	start   int64
+	opIdx   int
+	trig    string
+	locus   string
 	lastErr bool
 	mutated bool
-	seq   int
+	seq     int
 }
 
 func (x *ext4Run) want(clause string) bool { return strings.HasPrefix(clause, x.prop+".") }
